@@ -87,6 +87,19 @@ var c18Scenarios = []c18Scenario{
 			"b.log": "a\n", "d1/other.md": "a",
 		},
 	},
+	{
+		// text that looks like a format verb, a JSON escape or markup once it is inside the JSON document
+		find:        "find all (at least 1 not whitespace) = w",
+		replace:     "replace all '%' (any = c) with '%%' c '%s'",
+		findNone:    "find all '%q%q%q'",
+		replaceNone: "replace all 'zz%zz' with '%d'",
+		failing:     "find all '%d",
+		files: map[string]string{
+			"a1.txt": "100% %d %s %v\n\\u003cb\\u003e \\u0026 \\n \\\" </script>\n15%\n", "a2.txt": "%!d(MISSING) %%\n",
+			"d1/n1.txt": "%x %[1]d\n", "d2/n2.txt": "50%\n",
+			"b.log": "%\n", "d1/other.md": "%d",
+		},
+	},
 }
 
 var c18Patterns = map[string]string{"one": "a1.txt", "several": "a*.txt", "glob": "*/n*.txt", "noneMatching": "zz*.none"}
